@@ -109,12 +109,17 @@ type c04Case struct {
 	// Fault: the victim's block writes issued by its replicator (the re-encoding with which it re-derives the
 	// address of what it fetched) fail while the tampered entry is being processed
 	Fault bool
+	// Wildcard: the database's write list is ["*"] (anyone may write; a tampered entry is still tampered)
+	Wildcard bool
 }
 
 func (c c04Case) ID() string {
 	f := ""
 	if c.Fault {
 		f = " fault=replicator-block-write-fails"
+	}
+	if c.Wildcard {
+		f += " list=[*]"
 	}
 	return fmt.Sprintf("target=%s mut=%s delivery=%s route=%s pre=%s%s", c.Target, c.MutName, c.Delivery, c.Route, c.Pre, f)
 }
@@ -141,6 +146,10 @@ func c04Cases() []c04Case {
 							// an environment fault at the victim's own verification step must not let the entry in
 							out = append(out, c04Case{Target: t, Mut: i, MutName: m.name, Delivery: d, Route: r, Pre: pre, Fault: true})
 						}
+						if t == "chain" && r == "sync" {
+							// the same on a database anyone may write to
+							out = append(out, c04Case{Target: t, Mut: i, MutName: m.name, Delivery: d, Route: r, Pre: pre, Wildcard: true})
+						}
 					}
 				}
 			}
@@ -150,7 +159,11 @@ func c04Cases() []c04Case {
 }
 
 func runC04Case(c c04Case) (string, []explore.Violation) {
-	w, err := NewAdv(AdvOptions{Kind: "eventlog", Writers: []string{"A", "B"}})
+	writers := []string{"A", "B"}
+	if c.Wildcard {
+		writers = []string{"*"}
+	}
+	w, err := NewAdv(AdvOptions{Kind: "eventlog", Writers: writers})
 	if err != nil {
 		return "harness: " + err.Error(), nil
 	}
@@ -407,7 +420,7 @@ func fieldOf(mutName string) string {
 func init() {
 	explore.Register(&explore.CheckDef{
 		ID: "C04", Level: "exploration",
-		Rule:   "full cross product on fresh worlds: valid entry {root, chain member with refs, merge entry with two nexts} x 32 single-field mutations of its wire form (payload, clock time x4, clock id x2, next x3, refs, key x3, signature x3, log id x2, v x2, identity fields x6, claimed hash x5 incl. same-digest aliases with another codec or CID version) x delivery {announced with the original claimed hash, announced with recomputed hash, stored as a block and referenced as ancestor by an authorised colluder's valid head} (the ancestor delivery also with the victim's replicator block writes failing) x route {sync, topic, direct channel} x victim pre-state {empty, already holds the valid entries}. The harness classifies each mutant independently (content does not hash to the claimed address; the dependency's signature verification over the mutated content fails; log id differs); mutants in a class must be absent from log and view and the held entries and view unchanged; an \"orbitdb\" identity block whose own two signatures do not verify (re-verified by the harness) is a class as well; mutants in no class (identity type changes, judged by C03) are recorded only. Plus: the genuine head of another database of the same writer with a history of 1, 2, 3, 5 entries x route x pre-state; no foreign entry may be exposed. Non-trivial = judged mutants.",
+		Rule:   "full cross product on fresh worlds: valid entry {root, chain member with refs, merge entry with two nexts} x 32 single-field mutations of its wire form (payload, clock time x4, clock id x2, next x3, refs, key x3, signature x3, log id x2, v x2, identity fields x6, claimed hash x5 incl. same-digest aliases with another codec or CID version) x delivery {announced with the original claimed hash, announced with recomputed hash, stored as a block and referenced as ancestor by an authorised colluder's valid head} (the ancestor delivery also with the victim's replicator block writes failing) x route {sync, topic, direct channel} x victim pre-state {empty, already holds the valid entries}; the chain-member cases over the sync route also on a database whose write list is the wildcard. The harness classifies each mutant independently (content does not hash to the claimed address; the dependency's signature verification over the mutated content fails; log id differs); mutants in a class must be absent from log and view and the held entries and view unchanged; an \"orbitdb\" identity block whose own two signatures do not verify (re-verified by the harness) is a class as well; mutants in no class (identity type changes, judged by C03) are recorded only. Plus: the genuine head of another database of the same writer with a history of 1, 2, 3, 5 entries x route x pre-state; no foreign entry may be exposed. Non-trivial = judged mutants.",
 		Units:  func(tier string) []explore.Unit { return explore.ChunkUnits("c04", 16) },
 		Budget: func(tier string) float64 { return 400 },
 		RunUnit: func(c *explore.Ctx) {
